@@ -729,6 +729,15 @@ REPEATABLE = {
     "distinct_enum_distinct_enumerators": ("", lambda i: f"enum E{i} {{A{i}, B{i} = {i}, C{i}}};", "\n", ""),
     "distinct_anonymous_enum": ("", lambda i: f"enum {{X{i}, Y{i}}};", "\n", ""),
     "distinct_compound_literal_init": ("", lambda i: f"int *c{i} = (int[]){{{i}, 0}};", "\n", ""),
+    # parser-opened scopes (for-declarations, old-style declaration lists,
+    # non-scope braces) right before a closing brace: a scope that is not
+    # closed again makes every later lookup walk a deeper stack
+    "distinct_for_decl_if_last": ("", lambda i: f"void h{i}(int n{i}){{ for (int i = 0; i < 3; i++) if (i) n{i}++; }}", "\n", ""),
+    "distinct_for_decl_block_last": ("", lambda i: f"void j{i}(int n{i}){{ {{ for (int i = 0, k{i} = 1; i < k{i}; i++) {{ n{i}++; }} }} }}", "\n", ""),
+    "distinct_for_static_assert": ("", lambda i: f"void s{i}(int n{i}){{ for (_Static_assert(1, \"m\"); n{i}; ) if (n{i}) break; }}", "\n", ""),
+    "distinct_knr_enum_list": ("", lambda i: f"int ke{i}(e{i}) enum {{ KA{i}, KB{i} }} e{i}; {{ return e{i} == KB{i}; }}", "\n", ""),
+    "distinct_enum_in_struct_in_fn": ("", lambda i: f"int es{i}(void){{ struct {{ enum {{ EA{i}, EB{i} }} m; }} v = {{ EB{i} }}; return sizeof(enum {{ EC{i} }}) + v.m; }}", "\n", ""),
+    "for_decl_if_in_one_function": ("void f(int n){ ", lambda i: f"{{ for (int i{i} = 0; i{i} < 3; i{i}++) if (i{i}) n++; }}", " ", " }"),
     "distinct_locals_in_one_function": ("void f(void){ ", lambda i: f"{{ int v{i} = {i}; }} int w{i};", " ", " }"),
     # -- lists inside one construct ----------------------------------------
     "init_declarators": ("int ", lambda i: f"v{i}", ", ", ";"),
@@ -858,7 +867,7 @@ TIMED_REPEAT_QUICK = [
     "init_items_designated", "call_args", "params", "knr_identifiers", "enumerators",
     "struct_members", "init_declarators", "struct_declarators", "case_labels",
     "distinct_func_def_one_line", "distinct_knr_def", "distinct_brace_init_array",
-    "distinct_struct_body_var", "decl_typedef_use",
+    "distinct_struct_body_var", "decl_typedef_use", "distinct_for_decl_if_last",
 ]
 
 
